@@ -323,6 +323,27 @@ def mkcmp(op, a, b):
         x, y = a.value(), b.value()
         r = {"Eq": x == y, "Ne": x != y, "Lt": x < y, "Le": x <= y, "Gt": x > y, "Ge": x >= y}[op]
         return Cond("true" if r else "false")
+    # two structured values of the same type (derived / std equality: same variant and equal fields)
+    if isinstance(a, Agg) and isinstance(b, Agg) and a.adt == b.adt and op in ("Eq", "Ne"):
+        def agg_eq(x, y):
+            if isinstance(x, Agg) and isinstance(y, Agg) and x.adt == y.adt:
+                if x.var != y.var:
+                    return False
+                if set(x.fields) != set(y.fields):
+                    return None
+                rs = [agg_eq(x.fields[k_], y.fields[k_]) for k_ in x.fields]
+                return False if any(r is False for r in rs) else (None if any(r is None for r in rs) else True)
+            if isinstance(x, Bits) and isinstance(y, Bits) and x.is_const() and y.is_const():
+                return x.value() == y.value()
+            if isinstance(x, (Bits, Sym)) and vkey(x) == vkey(y) and not (isinstance(x, Sym) and x.d.startswith("call:")):
+                return True
+            return None
+        r = agg_eq(a, b)
+        if r is not None:
+            return Cond("true" if r == (op == "Eq") else "false")
+    # two string literals
+    if isinstance(a, Sym) and isinstance(b, Sym) and a.d.startswith("str:") and b.d.startswith("str:") and op in ("Eq", "Ne"):
+        return Cond("true" if (a.d == b.d) == (op == "Eq") else "false")
     # a value compared with itself (same wire bits)
     if isinstance(a, Bits) and isinstance(b, Bits) and a.w == b.w and a.b == b.b:
         return Cond("true" if op in ("Eq", "Le", "Ge") else "false")
@@ -433,6 +454,11 @@ def _irrefutable(p):
     return p["k"] == "Wild" or (p["k"] == "Bind" and p.get("sub") is None)
 
 
+class _Return(Exception):
+    def __init__(self, value):
+        self.value = value
+
+
 class Evaluator:
     """Abstract evaluation of small pure THIR bodies."""
 
@@ -501,7 +527,98 @@ class Evaluator:
         env = {}
         for p, a in zip(tb.params, args):
             self.bind(p.get("pat"), a, env)
-        return self.eval(tb, tb.root, env, depth)
+        try:
+            return self.eval(tb, tb.root, dict(env), depth)
+        except Unsupported as e:
+            if "early return nested" not in str(e):
+                raise
+        # control flow with returns nested inside branches: followed along the branches whose condition is decided
+        # (the usual situation when the function is evaluated for one concrete combination of its inputs)
+        try:
+            return self._run(tb, tb.root, env, depth)
+        except _Return as r:
+            return r.value
+
+    def _has_return(self, tb, i):
+        return any(n["k"] == "Return" and not self._noise(n) for _, n in tb.walk(i))
+
+    def _run(self, tb, i, env, depth):
+        """value of expression i, following `return`s nested in decided branches (raises _Return); an undecided branch
+        that contains a return is not supported"""
+        i, n = tb.e(i)
+        k = n["k"]
+        if not self._has_return(tb, i):
+            return self.eval(tb, i, env, depth)
+        if k == "Return":
+            raise _Return(self._run(tb, n["e"], env, depth) if n.get("e") is not None else Sym("unit"))
+        if k == "Block":
+            blk = tb.blocks[n["b"]]
+            env = dict(env)
+            for sid in blk["stmts"]:
+                st = tb.stmts[sid]
+                if st["k"] == "let":
+                    if st.get("init") is not None:
+                        v = self._run(tb, st["init"], env, depth)
+                        if st.get("else") is not None:
+                            c, binds = self.pat_cond(st["pat"], v, env)
+                            if isinstance(c, Cond) and c.op == "false":
+                                eb = tb.blocks[st["else"]]
+                                for s2 in eb["stmts"]:
+                                    st2 = tb.stmts[s2]
+                                    if st2["k"] == "expr":
+                                        self._run(tb, st2["e"], env, depth)
+                                if eb.get("expr") is not None:
+                                    self._run(tb, eb["expr"], env, depth)
+                                raise Unsupported("let-else block does not diverge")
+                            if not (isinstance(c, Cond) and c.op == "true"):
+                                raise Unsupported("undecided let-else next to a nested return")
+                        self.bind(st["pat"], v, env)
+                    continue
+                ei, en = tb.e(st["e"])
+                if self._noise(en):
+                    continue
+                if en["k"] in ("Assign", "AssignOp") and not self._has_return(tb, ei):
+                    li, ln = tb.e(en["l"])
+                    if ln["k"] in ("Var", "Upvar") and ln["id"] in env and en["k"] == "Assign":
+                        env[ln["id"]] = self.eval(tb, en["r"], env, depth)
+                        continue
+                    raise Unsupported("assignment next to a nested return")
+                self._run(tb, st["e"], env, depth)
+            if blk.get("expr") is not None:
+                return self._run(tb, blk["expr"], env, depth)
+            return Sym("unit")
+        if k == "If":
+            c = self.cond_of_if(tb, n, env, depth)
+            env_t = dict(env)
+            if isinstance(c, tuple):
+                c, binds = c
+                env_t.update(binds)
+            if isinstance(c, Cond) and c.op == "true":
+                return self._run(tb, n["then"], env_t, depth)
+            if isinstance(c, Cond) and c.op == "false":
+                return self._run(tb, n["else"], env, depth) if n.get("else") is not None else Sym("unit")
+            raise Unsupported("undecided condition %s guards a nested return" % ckey(c)[:80])
+        if k == "Match":
+            v = self._run(tb, n["scrut"], env, depth)
+            for a in n["arms"]:
+                arm = tb.arms[a]
+                c, binds = self.pat_cond(arm["pat"], v, env)
+                env2 = dict(env)
+                env2.update(binds)
+                if arm.get("guard") is not None:
+                    c = self.logic("and", c, self.as_cond(self.eval(tb, arm["guard"], env2, depth)))
+                if isinstance(c, Cond) and c.op == "false":
+                    continue
+                if isinstance(c, Cond) and c.op == "true":
+                    return self._run(tb, arm["body"], env2, depth)
+                raise Unsupported("undecided match arm %s next to a nested return" % ckey(c)[:80])
+            raise Unsupported("no match arm applies")
+        if k == "Call":
+            # arguments may contain `?`
+            for a in n["args"]:
+                if self._has_return(tb, a):
+                    raise Unsupported("call argument contains a return")
+        raise Unsupported("return nested in a %s expression" % k)
 
     def const_value(self, path, depth=0):
         c = self.f.consts.get(path)
